@@ -335,3 +335,60 @@ func assertedTypes(fn *ssa.Function) map[string]bool {
 	})
 	return out
 }
+
+// checkAuthorityGuards: every method with which a type of the given packages implements a MsgServer interface and
+// whose request type has an Authority field reaches a state write (SetParams or any set*/Set* keeper call) only
+// over the edge on which the request's Authority equals the keeper's authority. Returns the number of instances.
+func checkAuthorityGuards(r *Run, rule string, pkgs ...string) int {
+	P := r.P
+	n := 0
+	for _, fn := range P.Funcs {
+		if fn.Synthetic != "" || fn.Parent() != nil || fn.Signature.Recv() == nil || isTestSupport(P, fn) {
+			continue
+		}
+		in := false
+		for _, p := range pkgs {
+			if fnPkgPath(fn) == haqqMod+"/"+p {
+				in = true
+			}
+		}
+		if !in || fn.Signature.Params().Len() != 2 {
+			continue
+		}
+		req := deref(fn.Signature.Params().At(1).Type())
+		st, ok := req.Underlying().(*types.Struct)
+		if !ok || !strings.HasPrefix(namedName(req), "Msg") {
+			continue
+		}
+		hasAuth := false
+		for i := 0; i < st.NumFields(); i++ {
+			if st.Field(i).Name() == "Authority" {
+				hasAuth = true
+			}
+		}
+		if !hasAuth {
+			continue
+		}
+		n++
+		reqName := namedName(req)
+		isWrite := isCallMatching(func(ci CallInfo) bool {
+			return ci.Recv != "" && (strings.HasPrefix(ci.Name, "Set") || strings.HasPrefix(ci.Name, "set") || strings.HasPrefix(ci.Name, "Delete") || strings.HasPrefix(ci.Name, "Register") || strings.HasPrefix(ci.Name, "Toggle") || strings.HasPrefix(ci.Name, "Update")) && ci.Name != "UpdateParams"
+		})
+		requireGuard(r, rule, fnID(fn)+"#authority", fn, func(cond ssa.Value) (bool, bool) {
+			b, ok := cond.(*ssa.BinOp)
+			if !ok || (b.Op != token.NEQ && b.Op != token.EQL) {
+				return false, false
+			}
+			l, rr := backSlice(b.X), backSlice(b.Y)
+			isAuth := func(s *Slice) bool {
+				return s.HasField("Keeper", "authority") || s.HasField("BaseKeeper", "authority") || s.HasCall(func(g CallInfo) bool { return g.Name == "GetAuthority" })
+			}
+			isReq := func(s *Slice) bool { return s.HasField(reqName, "Authority") }
+			if (isAuth(l) && isReq(rr)) || (isAuth(rr) && isReq(l)) {
+				return b.Op == token.EQL, true
+			}
+			return false, false
+		}, nil, isWrite, "state is written only where the request's Authority is the module authority", "the handler of "+reqName+" can write module state for a signer that is not the module authority (governance): anyone could change the module's parameters")
+	}
+	return n
+}
